@@ -65,6 +65,8 @@ type Payload struct {
 	Src   string `json:"src,omitempty"`
 	Shape string `json:"shape,omitempty"` // e.g. "bin:int / int"
 	Want  string `json:"want,omitempty"`  // expected dynamic kind of the probed result ("" = unknown)
+	// Mods: further modules (name -> text) next to the entry module "main"
+	Mods map[string]string `json:"mods,omitempty"`
 	// TreeOnly: run on the interpreter only (constructs the VM does not implement: captured variables)
 	TreeOnly bool `json:"tree_only,omitempty"`
 	// limits sweep
@@ -279,6 +281,10 @@ func (c02) Run(c fw.Case) fw.Result {
 		return runLimits(p, res)
 	}
 	src := drive.Sources{"main": p.Src}
+	for _, name := range drive.SortedKeys(p.Mods) {
+		src[name] = p.Mods[name]
+		p.Src += "\n// ---- module " + name + " ----\n" + p.Mods[name] // rendering used in the verdict texts
+	}
 	fam := strings.SplitN(p.Shape, ":", 2)[0]
 	res.Cover = []string{"shape:" + fam}
 	ao := drive.Analyze(src, "main", true)
@@ -292,7 +298,7 @@ func (c02) Run(c fw.Case) fw.Result {
 	if !okOutcome(tr.Outcome) {
 		res.Verdict = fw.Violated
 		res.Sig = "tree:" + tr.Outcome.Class + ":" + p.Shape + ":" + util.NormPanic(tr.Outcome.Message)
-		res.Why = fmt.Sprintf("interpreter: %s for %s\n%s", tr.Outcome, p.Shape, p.Src)
+		res.Why = fmt.Sprintf("interpreter: %s for %s\n%s", gist(tr.Outcome), p.Shape, p.Src)
 	}
 	if p.TreeOnly {
 		return res
@@ -328,6 +334,16 @@ func (c02) Run(c fw.Case) fw.Result {
 		res.Sample = map[string]any{"shape": p.Shape, "src": p.Src, "vm": vm.Outcome.String(), "tree": tr.Outcome.String()}
 	}
 	return res
+}
+
+// gist renders an outcome for a verdict text; of a very long Go panic message (the interpreter
+// dumps its scopes) the head and the tail, which names the failure, are kept.
+func gist(o drive.Outcome) string {
+	s := o.String()
+	if r := []rune(s); len(r) > 400 {
+		s = string(r[:120]) + " [...] " + string(r[len(r)-240:])
+	}
+	return s
 }
 
 func runLimits(p Payload, res fw.Result) fw.Result {
@@ -382,6 +398,9 @@ func (c02) OnCrash(c fw.Case, cr fw.Crash) fw.Result {
 	}
 	shape := p.Shape
 	src := p.Src
+	for _, name := range drive.SortedKeys(p.Mods) {
+		src += "\n// ---- module " + name + " ----\n" + p.Mods[name]
+	}
 	if p.Gen != nil {
 		shape = fmt.Sprintf("limits:%+v", *p.Limits)
 		pr, _ := c01.Build(*p.Gen)
